@@ -351,3 +351,13 @@ PROPS['C17']['e1'] = PROPS['C17']['e1'] + ST_EXT
 for _p in ('C10', 'C14', 'C20'):
     PROPS[_p]['explanation'] += (' State completeness: __getstate__ (to_dict) hands over every field of the object with its unit, __setstate__ (from_dict) puts every field back from the state of a '
                                  'well-formed object (that pickle preserves such a dictionary is the assumed dependency contract; exercised natively by the bounded run).')
+
+
+# ---- ConvolvedFluxes.write under contract ---------------------------------------------------------------
+PROPS['C07']['e1'] = PROPS['C07']['e1'] + [CFX + 'write']
+PROPS['C12']['e1'] = PROPS['C12']['e1'] + [CFX + 'write']
+PROPS['C12']['assumptions'] = [x.replace("ConvolvedFluxes files and the consumers of the order", "ConvolvedFluxes.read (astropy Column API) and the consumers of the order") for x in PROPS['C12']['assumptions']]
+for _p in ('C07', 'C12'):
+    PROPS[_p]['explanation'] += (' ConvolvedFluxes.write: names, fluxes, errors row for row with their units, apertures, central wavelength in micron '
+                                 '(read-back through ConvolvedFluxes.read: bounded run).')
+PROPS['C07']['assumptions'] = [x.replace(' / ConvolvedFluxes.write (package directory and FITS I/O)', ' (package directory and FITS I/O); ConvolvedFluxes.write through its own contract') for x in PROPS['C07']['assumptions']]
